@@ -256,7 +256,27 @@ def sel_shape(arr, rs, cs):
     return None
 
 
+def gen_c03_big(r):
+    """local views of `ra[::-1] = ra` / `ra[:, ::-1] = ra` on an array of more than 65 536 cells (exec_ragged.op_setitem_embedded)"""
+    n = r.choice([21846, 22000, 30000, 43691, 44000])          # 3n cells: just above 65 536, 131 072
+    kind = r.choice(["rowrev", "colrev"])
+    dt = r.choice(["i8", "i4"])
+    edge = r.choice([65536 // 3, 65536 // 3 + 1, 131072 // 3, n // 2, 0, n - 1])
+    i = max(0, min(n - 1, edge + r.randint(-2, 2))) if r.random() < 0.7 else r.randrange(n)
+    row = lambda p: [3 * p, 3 * p + 1, 3 * p + 2]
+    if kind == "rowrev":
+        pos = [i, n - 1 - i] if i != n - 1 - i else [i]
+        rows = [row(p) for p in pos]
+        case = ["setitem", [dt, rows], ["slice", NONE, NONE, -1], ["none"], ["ragged", rows]]
+    else:
+        pos = [i]
+        case = ["setitem", [dt, [row(i)]], ["slice", NONE, NONE, NONE], ["slice", NONE, NONE, -1], ["ragged", [row(i)]]]
+    return case, {"embed": {"n": n, "kind": kind, "pos": pos}}, False
+
+
 def gen_c03(r):
+    if r.random() < 0.01:
+        return gen_c03_big(r)
     lens = rnd_lens(r, 7, 5)
     dt = r.choice(["i8", "i8", "i4", "f8", "f8", "u1", "i2", "b1", "f4"])
     arr = rnd_arr(r, dt, lens, distinct=True)
